@@ -266,6 +266,23 @@ def run(ctx):
             ctx.count("o_rendered")
             if w:
                 ctx.reject(case, w)
+        # names the module object uses itself (and other engine-internal spellings) as top-level assignment
+        # targets, macro names and import aliases: the module's text must still be the rendered text
+        INTERNAL = ["_body_stream", "__name__", "__str__", "__html__", "__repr__", "__dict__", "__class__", "_TemplateModule__x",
+                    "environment", "context", "blocks", "name", "root", "self", "_x", "x_"]
+        FORMS = ["{{% set {n} = ['?'] %}}a{{{{ 1 }}}}b", "{{% set t, {n} = 'T', ['?'] %}}<{{{{ t }}}}>", "{{% set {n}, t = ['?'], 'T' %}}<{{{{ t }}}}>",
+                 "{{% set {n} %}}?{{% endset %}}body{{{{ 2 }}}}", "{{% macro {n}() %}}m{{% endmacro %}}y{{{{ 3 }}}}",
+                 "{{% import 'lib0' as {n} %}}z{{{{ 4 }}}}", "{{% from 'lib0' import mm as {n} %}}w{{{{ 5 }}}}",
+                 "{{% set a, (b, {n}) = 1, (2, ['?']) %}}v{{{{ a }}}}{{{{ b }}}}", "{{% with %}}{{% set {n} = 1 %}}{{% endwith %}}u{{{{ 6 }}}}",
+                 "{{% for {n} in [1] %}}{{% endfor %}}{{% set q, r = 1, 2 %}}s{{{{ q }}}}"]
+        for n_ in INTERNAL:
+            for fi, form in enumerate(FORMS):
+                ts = {"main.html": form.format(n=n_), "lib0": "{% macro mm() %}M{% endmacro %}L"}
+                case = {"templates": ts, "data": {}, "index": -1, "autoescape": fi % 2 == 1}
+                w = oracle_entry_points(jinja2, ts, "main.html", {}, tmpdir, ctx, fi % 2 == 1)
+                ctx.count("o_internal_names" if w != "skip" else "o_internal_names_rejected")
+                if w and w != "skip":
+                    ctx.reject(case, w)
     finally:
         for f in os.listdir(tmpdir):
             os.unlink(os.path.join(tmpdir, f))
